@@ -13,4 +13,9 @@ theorem mostCommonType_comparisons : Facts.llo_mostCommonType_cmps =
 /-- `ModeAggregator` and `mostCommonType` range over no Go map (keys are sorted first) -/
 theorem no_map_ranges : Facts.llo_ModeAggregator_mapranges = [] ∧ Facts.llo_mostCommonType_mapranges = [] := ⟨rfl, rfl⟩
 
+/-- `reports()` reads the aggregates in exactly one place, by stream id AND aggregator of the definition's entry
+    (`channelReport` of the model; `report_values_are_outcome_aggregates`) -/
+theorem reports_lookup_by_pair : Facts.llo_reports_aggregate_lookups =
+    ["outcome.StreamAggregates[strm.StreamID][strm.Aggregator]"] := by decide
+
 end DSV.Props.C15.Facts
